@@ -3,7 +3,7 @@
    The third-party libraries are universally quantified and constrained by the contracts of
    C18_Spec.v (detail_contract, b64_contract, bin_contract, json_contract); the last theorem
    shows the contracts are satisfied by the instances the extracted model runs with. *)
-From V Require Import C18_Spec C18_Proofs C18_Instances.
+From V Require Import C18_Spec C18_Proofs C18_Instances C18_Hist.
 Open Scope N_scope.
 
 (* ---------------------------------------------------------------- errors *)
@@ -185,6 +185,76 @@ Theorem codec_rejects_unknown : forall wire marshal_bin unmarshal_bin marshal_js
 Proof. exact codec_rejects_unknown_proof. Qed.
 Print Assumptions codec_rejects_unknown.
 
+(* --------------------------------------------- histories: structures used further *)
+(* The detail bytes are handed on as they are - for ANY bytes, a non-canonical encoding of a
+   registered type included: under connect-go's contract the Connect error shows them and the
+   conversion back returns them; the conversions (with the extracted instances) commute with every
+   function on the bytes, so nothing decodes or re-encodes them. *)
+Theorem detail_bytes_verbatim :
+  (forall new_detail d_type d_bytes, detail_contract new_detail d_type d_bytes -> forall e,
+     map d_bytes (c_details (connect_of_proto new_detail e)) = map snd (p_details e) /\
+     map snd (p_details (proto_of_connect d_type d_bytes (connect_of_proto new_detail e))) = map snd (p_details e)) /\
+  (forall d_type d_bytes c, map snd (p_details (proto_of_connect d_type d_bytes c)) = map d_bytes (c_details c)) /\
+  (forall f e, c_of_p (perr_map f e) = cerr_map f (c_of_p e)) /\
+  (forall f c, p_of_c (cerr_map f c) = perr_map f (p_of_c c)) /\
+  (forall f e, grpc_of_proto (perr_map f e) = option_map (gstat_map f) (grpc_of_proto e)) /\
+  (forall f s, proto_of_grpc (GrpcStatus (gstat_map f s)) = perr_map f (proto_of_grpc (GrpcStatus s))) /\
+  (forall f t s, proto_of_grpc (GrpcWrapped t (gstat_map f s)) = perr_map f (proto_of_grpc (GrpcWrapped t s))).
+Proof. exact detail_bytes_verbatim_proof. Qed.
+Print Assumptions detail_bytes_verbatim.
+
+(* Explicit memory (C18_Model 2b; every array has spare capacity, append() is in place).  A header /
+   metadata conversion run on a source that lies in memory allocated before the call: reads only;
+   returns what the value-level conversion gives for the values of the source; every array of the
+   result was allocated by the call and no two value lists share one; hence the result reads the same
+   whatever is done afterwards to all other memory - the source's arrays, a sibling destination filled
+   from the same source, anything allocated later. *)
+Theorem conversions_do_not_alias : forall touch keyf valf h0 src h1 A,
+  src_below (next h0) src ->
+  conv_h false touch keyf valf src (h0, []) = (h1, A) ->
+  (forall id, (id < next h0)%nat -> same_arr h0 h1 id) /\
+  image h1 A = conv_v touch keyf valf (image h0 src) [] /\
+  (next h0 <= next h1)%nat /\ Forall (fun id => next h0 <= id < next h1)%nat (ids A) /\ NoDup (ids A) /\
+  (forall h', (forall id, (next h0 <= id < next h1)%nat -> same_arr h1 h' id) -> image h' A = image h1 A).
+Proof. exact conversions_do_not_alias_proof. Qed.
+Print Assumptions conversions_do_not_alias.
+
+(* ... and conv_v is the model's conversion for each of the five functions (a Go map has unique
+   keys); append() through a slice writes to that slice's array or to a new one, nowhere else *)
+Theorem heap_conversions_are_the_models :
+  (forall src dest, conv_v false canonical_key val_id src dest = add_headers src dest) /\
+  (forall src dest, conv_v false trailer_key val_id src dest = add_trailers src dest) /\
+  (forall b64enc b64dec hs, conv_v true lower (fn_val b64enc b64dec 3) hs [] = md_of_proto b64dec hs) /\
+  (forall b64enc b64dec (m : md), NoDup (map fst m) ->
+     conv_v true (fun k => k) (fn_val b64enc b64dec 4) m [] = proto_of_md b64enc m) /\
+  (forall m : md, NoDup (map fst m) -> conv_v true (fun k => k) val_id m [] = convert_to_proto_header m) /\
+  (forall h s x h' s', sl_append h s x = (h', s') ->
+     (next h <= next h')%nat /\
+     forall id, (match s with SRef id0 _ => id <> id0 | SNil => id <> next h end) -> same_arr h h' id).
+Proof.
+  exact (conj conv_v_add_headers (conj conv_v_add_trailers (conj conv_v_md_of_proto
+        (conj conv_v_proto_of_md (conj conv_v_convert_to_proto_header sl_append_writes))))).
+Qed.
+Print Assumptions heap_conversions_are_the_models.
+
+(* A message object with a history (changed, sized, encoded, changed again ...): the result of every
+   Marshal is that of a fresh message holding the current value - the codec keeps no state and trusts
+   none in the message; with the library contracts every encoding decodes to the current value. *)
+Theorem codec_stateless :
+  (forall wire (marshal : pmsg -> wire) unmarshal ops o,
+     run_hist wire marshal unmarshal false ops o =
+     map (fun m => Some (unmarshal (marshal m))) (values_at_marshal ops (o_cur o))) /\
+  (forall wire marshal_bin unmarshal_bin marshal_json unmarshal_json json_unknown,
+     @bin_contract wire marshal_bin unmarshal_bin ->
+     json_contract marshal_json unmarshal_json json_unknown ->
+     forall ops o, Forall (fun m => ~ has_unknown m) (values_at_marshal ops (o_cur o)) ->
+     run_hist wire (strict_proto_marshal wire marshal_bin) (strict_proto_unmarshal wire unmarshal_bin) false ops o =
+       map (fun m => Some (COk m)) (values_at_marshal ops (o_cur o)) /\
+     run_hist wire (strict_json_marshal wire marshal_json) (strict_json_unmarshal wire unmarshal_json) false ops o =
+       map (fun m => Some (COk m)) (values_at_marshal ops (o_cur o))).
+Proof. exact (conj codec_stateless_proof codec_hist_roundtrip_proof). Qed.
+Print Assumptions codec_stateless.
+
 (* ------------------------------------------- the contracts are satisfiable *)
 (* ... by the instances the extracted model runs with; the base64 one is the Gallina transcription
    of Go's encoding/base64 as connect uses it, compared with the Go functions on every check *)
@@ -267,3 +337,39 @@ Qed.
 
 Example ex_no_unknown : ~ has_unknown (PMsg (bs "t") [] [PMsg (bs "GET") [] []]).
 Proof. apply clean_iff. vm_compute. reflexivity. Qed.
+
+(* seeded C18-14: AddHeaders keeps the source's slice for a new name.  The same list added to two
+   destinations, one more value appended to each, the source re-used: the first destination has lost
+   its own value and shows the scribbling; the conversion as it is keeps everything *)
+Example ex_sharing_refuted :
+  let src := [(bs "X-Custom", [bs "v1"; bs "v2"; bs "v3"])] in
+  alias_history (conv_h true false canonical_key val_id) src (bs "first-extra") (bs "second-extra") =
+    ([(bs "X-Custom", [bs "v1"; bs "v2"; bs "v3"])],
+     [(bs "X-Custom", [bs "#"; bs "#"; bs "#"; bs "#"])], [(bs "X-Custom", [bs "#"; bs "#"; bs "#"; bs "#"])]) /\
+  alias_history (conv_h false false canonical_key val_id) src (bs "first-extra") (bs "second-extra") =
+    ([(bs "X-Custom", [bs "v1"; bs "v2"; bs "v3"])],
+     [(bs "X-Custom", [bs "v1"; bs "v2"; bs "v3"; bs "first-extra"])],
+     [(bs "X-Custom", [bs "v1"; bs "v2"; bs "v3"; bs "second-extra"])]).
+Proof. vm_compute. auto. Qed.
+
+(* seeded C18-11: Marshal trusting the sizes cached in the message (UseCachedSize).  Encode, change
+   a nested message, encode again: the variant fails, the codec as it is encodes the current value *)
+Example ex_cached_size_refuted :
+  let t1 := PMsg (bs "t") [] [PMsg (bs "GET") [] []] in
+  let t2 := PMsg (bs "t") [] [PMsg (bs "GET") [] [PMsg (bs "a longer text") [] []]] in
+  let ops := [HSet t1; HMarshal; HSet t2; HMarshal] in
+  let o := MObj (PMsg [] [] []) NotSized in
+  run_hist _ (strict_proto_marshal _ marshal_bin_i) (strict_proto_unmarshal _ unmarshal_bin_i) true ops o =
+    [Some (COk t1); None] /\
+  run_hist _ (strict_proto_marshal _ marshal_bin_i) (strict_proto_unmarshal _ unmarshal_bin_i) false ops o =
+    [Some (COk t1); Some (COk t2)] /\
+  values_at_marshal ops (o_cur o) = [t1; t2].
+Proof. vm_compute. auto. Qed.
+
+(* a non-canonical encoding of a registered type (Header{name = "k", value = ["a"]} with the fields
+   out of order) comes back byte for byte *)
+Example ex_noncanonical_detail :
+  p_details (p_of_c (c_of_p (PErr 5 None [(bs "type.googleapis.com/connectrpc.conformance.v1.Header",
+                                          [18; 1; 97; 10; 1; 107])]))) =
+  [(bs "type.googleapis.com/connectrpc.conformance.v1.Header", [18; 1; 97; 10; 1; 107])].
+Proof. vm_compute. reflexivity. Qed.
